@@ -576,7 +576,33 @@ pub fn inject(ch: &mut Choices, doc: &mut Vec<MTsDef>) -> Option<TsFault> {
         }
         _ => {
             // recursive directive definition
-            match ch.below(3) {
+            match ch.below(4) {
+                3 => {
+                    // a cycle cycA -> cycB -> cycA that is only entered from a third directive, in a
+                    // generated definition order (the cycle must be found wherever the walk starts)
+                    let mk = |name: &str, arg: &str, refers: &str| {
+                        MTsDef::Directive(MDirectiveDef {
+                            desc: None,
+                            name: name.into(),
+                            args: vec![MInputValue { desc: None, name: arg.into(), ty: MType::named("Int"), default: None, directives: vec![MDirective { name: refers.into(), args: vec![] }] }],
+                            repeatable: false,
+                            locations: vec!["ARGUMENT_DEFINITION".into()],
+                        })
+                    };
+                    let mut defs = vec![mk("cycEntry", "e", "cycA"), mk("cycA", "x", "cycB"), mk("cycB", "y", "cycA")];
+                    let perm = ch.permutation(3);
+                    let ordered: Vec<MTsDef> = perm.iter().map(|&i| defs[i].clone()).collect();
+                    defs.clear();
+                    // at the front or at the back of the document
+                    if ch.flip() {
+                        for (k, d) in ordered.into_iter().enumerate() {
+                            doc.insert(k, d);
+                        }
+                    } else {
+                        doc.extend(ordered);
+                    }
+                    Some(TsFault { label: "directive-recursion", cell: format!("cycle-with-entry/order-{}{}{}", perm[0], perm[1], perm[2]) })
+                }
                 0 => {
                     doc.push(MTsDef::Directive(MDirectiveDef {
                         desc: None,
@@ -732,7 +758,7 @@ pub fn run(env: &Env) -> i32 {
     let mut rep = Report::new(
         env,
         "exploration",
-        "positive: valid schema models (all kinds, interface hierarchies, custom and built-in directives at every location they declare, covariant/extra-argument implementers) split into definitions + extensions over 1-3 files, canonical or random trivia; oracle: zero diagnostics. negative: the same with exactly one labelled fault out of 24 operators (reserved names, duplicates, unknown types, in/out position, implements rules, interface conformance, union members, directive application faults at each of the 11 type-system locations, recursive directive definitions); oracle: >=1 diagnostic. Non-trivial: positive = >=4 kinds + extension + directive application; negative = distinct (rule, cell).",
+        "positive: valid schema models (all kinds, interface hierarchies, custom and built-in directives at every location they declare, covariant/extra-argument implementers) split into definitions + extensions over 1-3 files, canonical or random trivia; oracle: zero diagnostics. negative: the same with exactly one labelled fault out of 25 operators (reserved names, duplicates, unknown types, in/out position, implements rules, interface conformance, union members, directive application faults at each of the 11 type-system locations, recursive directive definitions); oracle: >=1 diagnostic. Non-trivial: positive = >=4 kinds + extension + directive application; negative = distinct (rule, cell).",
     );
     rep.assume("built-in scalars and directives are never redefined in the SDL (the spec says they are omitted)");
     let probe_ok = |schema: &'static str| {
